@@ -5,14 +5,14 @@ CONSTANTS
   MDepth = 2
   MRDepth = 2
   ValueRegs <- Regs
+  Slices = 1
+  Slice = 0
   Ops <- GOps
   Rcs <- GRcs
   Vers <- GVers
   ELos <- GELos
   RVals <- GRVals
   RTexts <- GRTexts
-INVARIANT LayoutLaws
-INVARIANT TablesSane
 INVARIANT FieldLaws
 INVARIANT FlagsLaws
 INVARIANT RcodeLaws
